@@ -276,7 +276,14 @@ def gen_font(r, npasses=None, dirn=None, maxloop=None, posallow=None, allow=None
         for g in range(1, NG):
             if gl.random() < 0.25:
                 gattr[g][3] = 16
-    data = build_with(passes_fn, np_, isubst, ipos, CLASSES, dirn=d, gattr=gattr)
+    # the bidi step (Silf::m_bPass, what is left of the bidi pass): absent, in front of the first positioning pass (the shape of the
+    # shipped fonts that have one), or anywhere behind it up to the end; the justification pass index goes with it (the loader wants
+    # pPass <= jPass <= bPass).  Drawn from a stream of its own.
+    br = r.__class__(r.random())
+    ibidi = 0xFF
+    if rtl and br.random() < 0.5:
+        ibidi = br.choice([ipos, ipos, br.randrange(ipos, np_ + 1)])
+    data = build_with(passes_fn, np_, isubst, ipos, CLASSES, dirn=d, gattr=gattr, ijust=(None if ibidi == 0xFF else ibidi), ibidi=ibidi)
     colarr = [0xFFFF] + [(g - 1) % ncols for g in range(1, NG)]
     pm = []
     for sp in specs:
@@ -288,14 +295,14 @@ def gen_font(r, npasses=None, dirn=None, maxloop=None, posallow=None, allow=None
             ";".join("%d,%d,%s,%s" % (ru[0], ru[1], ru[2].hex() or "-", ru[3].hex() or "-") for ru in sp["rules"]),
             ";".join(".".join(map(str, ru[4])) for ru in sp["rules"]),
             sp["pcon"].hex() or "-"]))
-    model = "ipos=%d sdir=%d classes=%s gattr=%s gadv=%s passes=%s" % (ipos, d, ";".join(".".join(map(str, c)) for c in CLASSES),
+    model = "ipos=%d sdir=%d bidi=%d classes=%s gattr=%s gadv=%s passes=%s" % (ipos, d, ibidi, ";".join(".".join(map(str, c)) for c in CLASSES),
                                                                       ";".join(".".join(map(str, g)) for g in gattr), ".".join(str(500 + 10 * g) for g in range(NG)), "|".join(pm))
-    desc = {"passes": np_, "ipos": ipos, "ncols": ncols, "dir": d, "model": model,
+    desc = {"passes": np_, "ipos": ipos, "ncols": ncols, "dir": d, "bidi": ibidi, "model": model,
             "rules": [[{"sort": ru[0], "pre": ru[1], "con": ru[2].hex(), "act": ru[3].hex(), "pat": list(ru[4]), "kinds": ru[5]} for ru in sp["rules"]] for sp in specs]}
     return data, desc
 
 
-def build_with(passes_fn, npasses, isubst, ipos, classes, dirn=0, gattr=None, upem=1000):
+def build_with(passes_fn, npasses, isubst, ipos, classes, dirn=0, gattr=None, upem=1000, ijust=None, ibidi=0xFF):
     glat = u32(0x00010000)
     locs = []
     for g in range(NG):
@@ -305,7 +312,7 @@ def build_with(passes_fn, npasses, isubst, ipos, classes, dirn=0, gattr=None, up
     locs.append(len(glat))
     gloc = u32(0x00010000) + u16(0) + u16(NATTR) + b''.join(u16(l) for l in locs)
     return sfnt({'head': head(upem), 'hhea': hhea(), 'hmtx': hmtx(), 'maxp': maxp(), 'cmap': cmap(), 'Gloc': gloc, 'Glat': glat, 'Feat': feat(), 'Sill': sill(),
-                 'Silf': silf(passes_fn, npasses, isubst, ipos, npasses, classes, len(classes), dirn)})
+                 'Silf': silf(passes_fn, npasses, isubst, ipos, npasses if ijust is None else ijust, classes, len(classes), dirn, ibidi=ibidi)})
 
 
 def gen_text(r, maxlen=12):
